@@ -73,5 +73,5 @@ def harnesses(tier, seed):
             for owners in owner_tables(3, 2, 1):
                 for k in (count_vectors(ty, 3) if ty != "FL" else [(1, 2, 1), (2, 0, 2), (3, 1, 0)]):
                     bucket.append(collect_harness("c01", "collect_vec", ty, "slice", 3, 2, 1, owners, k))
-        hs = cap(light, 700, seed) + cap(heavy, 60, seed)
+        hs = cap(light, 300, seed) + cap(heavy, 36, seed)
     return hs
